@@ -92,7 +92,7 @@ PROPS = {
         lean_modules=["PalomaModel.Props.C16"],
         harness_test="TestC16",
         n_quick=150, n_thorough=1500, thorough_seeds=8, timeout_quick=900,
-        spec_ops=[],
+        spec_ops=["*"],  # every observable the driver prints for this property is the property's own subject (canonical state / verdicts)
         rule="full-app fixture (real ante chain and msg router), 4 users + 2 contract stand-ins; histories of 20-31 ops: create / mint / burn / change-admin / set-metadata by any account on own, foreign, not-yet-created, native and malformed denoms "
              "(2 parts, wrong prefix, non-bech32 creator, over-long, illegal characters), fee grants, forged signers, the exported wasm-binding entry points; distinct = distinct op text of the case; non-trivial = at least one accepted op",
         trusted_base=[SDK_TRUST, "no coins exist under a factory-shaped denom at genesis (hypothesis hclean of supply_eq_mints_minus_burns)"],
@@ -115,7 +115,7 @@ PROPS = {
         lean_modules=["PalomaModel.Props.C18"],
         harness_test="TestC18",
         n_quick=150, n_thorough=1500, thorough_seeds=8, timeout_quick=900,
-        spec_ops=[],
+        spec_ops=["*"],  # every observable the driver prints for this property is the property's own subject (canonical state / verdicts)
         rule="full-app fixture, one validator; signed txs through the real ante chain for licence creation / activation / authentication by any account, sales voted through the real oracle (MsgLightNodeSaleClaim + skyway end-blocker, "
              "so the attestation's cached context is exercised), governance config through the proposal handlers; interleaved licences for several addresses incl. existing accounts, funders with/without (spendable) balance, right/wrong sale contract, "
              "re-activation, vesting sampled at start / mid / end / end+1; distinct = distinct op text of the case; non-trivial = at least one accepted op",
@@ -141,7 +141,7 @@ PROPS = {
         lean_modules=["PalomaModel.Props.C10"],
         harness_test="TestC10",
         n_quick=300, n_thorough=3000, thorough_seeds=6, timeout_quick=900,
-        spec_ops=[],
+        spec_ops=["*"],  # every observable the driver prints for this property is the property's own subject (canonical state / verdicts)
         rule="pure layer: transformSnapshotToCompass / isEnoughToReachConsensus on arbitrary snapshots (stakes 1, equal, 2^53+-1, 2^62, 2^63, adversarial total*k = 1 mod 2^32, the float counterexample; validators with two accounts on one chain) through public entry points and the verif export; "
              "keeper layer on the full app: bond / unbond / jail / external-account registration / chain activation / snapshot build / on-chain activation sequences, observing FindSnapshotByID for every id after every op and the UpdateValset messages in the queue; "
              "distinct = distinct op text; non-trivial = a snapshot or valset was produced",
@@ -186,7 +186,7 @@ PROPS = {
         lean_modules=["PalomaModel.Props.C06"],
         harness_test="TestC06",
         n_quick=300, n_thorough=2500, thorough_seeds=6, timeout_quick=900,
-        spec_ops=[],
+        spec_ops=["*"],  # every observable the driver prints for this property is the property's own subject (canonical state / verdicts)
         rule="full application with an active EVM chain: histories of enqueue, sign (valid, invalid, wrong key, duplicate validator / key, alias spellings of a key), gas-estimate submission and election, fee attachment by replace-put, "
              "batch confirmations before and after estimate election, key re-registration and take-over of a released address; after EVERY op every stored SignData and batch confirm is re-verified with real secp256k1 against the item's current signing bytes; "
              "distinct = distinct op text; non-trivial = at least one signature stored",
@@ -197,7 +197,7 @@ PROPS = {
         lean_modules=["PalomaModel.Props.C14"],
         harness_test="TestC14",
         n_quick=300, n_thorough=2500, thorough_seeds=6, timeout_quick=900,
-        spec_ops=[],
+        spec_ops=["*"],  # every observable the driver prints for this property is the property's own subject (canonical state / verdicts)
         rule="full application: snapshots, metrics, fee tables, trait sets and MEV requirement flags incl. score ties and missing records; queues mixing UpdateValset / SubmitLogicCall / UploadUserSmartContract with several senders (incl. empty), "
              "assignees, estimate states, delivery / error reports; GetMessagesForRelaying of every validator vs the model's `offered`; fees vs an independent big-rational ceil; distinct = distinct op text; non-trivial = a message was assigned",
         trusted_base=[SDK_TRUST, "relayer scores are modelled in exact LegacyDec arithmetic (banker's rounding, truncating division), validated by correspondence"],
@@ -207,7 +207,7 @@ PROPS = {
         lean_modules=["PalomaModel.Props.C12"],
         harness_test="TestC12",
         n_quick=300, n_thorough=3000, thorough_seeds=6, timeout_quick=900,
-        spec_ops=[],
+        spec_ops=["*"],  # every observable the driver prints for this property is the property's own subject (canonical state / verdicts)
         rule="mock world (real valset keeper + AppModule Begin/EndBlock + msg server + gov handler over a fake staking/slashing view) with ARBITRARY address bytes (0x2c anywhere, all-0x2c, prefixes of one another, 'hex:'-looking, 1-32 bytes) and the full app with operator keys filtered "
              "so that about half of the addresses contain 0x2c; histories of keep-alives (good / old / invalid versions), block advancement over sweep heights incl. real 2000-block expiries, jail / unjail / bond / unbond, stake distributions with whales and exact-quarter stakes, "
              "minimum-version changes through real governance; distinct = distinct op text; non-trivial = at least one sweep ran",
@@ -218,7 +218,7 @@ PROPS = {
         lean_modules=["PalomaModel.Props.C17"],
         harness_test="TestC17",
         n_quick=300, n_thorough=3000, thorough_seeds=6, timeout_quick=900,
-        spec_ops=[],
+        spec_ops=["*"],  # every observable the driver prints for this property is the property's own subject (canonical state / verdicts)
         rule="full application with three chains (active with MEV, supported-but-idle, active) plus unregistered targets: create / execute requests as signed txs through ante + router, through the real wasm bindings (create_job, execute_job, legacy fallback) "
              "and through SchedulerKeeper.ExecuteJob with arbitrary sender / contract bytes (nil, empty, 20, 32, 33 bytes); modifiable and fixed jobs, duplicate ids, supplied payload absent / empty / malformed / bytes, relayer outage (fee records removed), "
              "new snapshots with the MEV trait toggled, explicit end-blocks; observed: job store digest and the NEW messages in each chain's turnstone queue; distinct = distinct op text; non-trivial = at least one successful execution",
